@@ -270,7 +270,7 @@ def run(tier, seed, shard, nshards):
     w = Worker("c18")
     ck = Checker(s, w)
     mine = [c for i, c in enumerate(LIST_CPUS) if i % nshards == shard]
-    pools = progs.make_pools(w, mine, want=25)
+    pools = progs.make_pools(w, mine, want=25, multiword=True)
     cpuinfo = {c["name"]: c["unit"] for c in w.cpus()}
     cpuinfo = {c: cpuinfo[progs.CPU_FILES.get(c, c)] for c in mine}
     survey = os.environ.get("NV_SURVEY") == "1"
